@@ -72,6 +72,11 @@ def materialise(case):
     for j in range(rng.randint(0, 8)):
         parts, shape = gen.rand_feature_parts(rng, n)
         feats.append({"type": rng.choice(["CDS", "misc_feature", "source"]), "parts": parts, "quals": {"uid": ["u%d" % j], "note": ["n%d" % j]}})
+    rdup = gen.rng_for(case["seed"], PROP, "dup", case["i"])   # own stream: the draws above and below stay what they were
+    if feats and rdup.random() < 0.25:
+        # the same annotation listed twice (exact duplicate, as plasmid editors export them), adjacent or not
+        import copy
+        feats.insert(rdup.randint(0, len(feats)), copy.deepcopy(rdup.choice(feats)))
     rec = {"id": "r%d" % case["i"], "seq": seq, "features": feats, "annotations": {"topology": "circular", "molecule_type": "DNA"}}
     if rng.random() < 0.5:
         rec["letters"] = {"phred_quality": [rng.randint(0, 60) for _ in range(n)]}
@@ -98,15 +103,26 @@ def _equiv(ctx, a, b, mech, msg, n):
         ctx.violation(mech + "-sequence", msg + ": sequences differ (%r vs %r)" % (str(a.seq)[:50], str(b.seq)[:50]))
         return
     fa, fb = feature_table(a), feature_table(b)
-    if set(fa) != set(fb):
-        ctx.violation(mech + "-features-lost", msg + ": feature sets differ (%s vs %s)" % (sorted(map(str, fa)), sorted(map(str, fb))))
+    ka, kb = {k for k in fa if k[0] == "uid"}, {k for k in fb if k[0] == "uid"}
+    if ka != kb or len(fa) != len(fb):
+        ctx.violation(mech + "-features-lost", msg + ": feature sets differ (%s vs %s; %d vs %d features)" % (sorted(map(str, ka)), sorted(map(str, kb)), len(fa), len(fb)))
         return
-    for key in fa:
+    same = lambda pa, pb: same_denotation(denote({"parts": pa}, n), denote({"parts": pb}, n), n, stranded=all(st in (1, -1) for _, _, st in pa))
+    for key in ka:
         pa, pb = fa[key][3], fb[key][3]
-        stranded = all(st in (1, -1) for _, _, st in pa)
-        if not same_denotation(denote({"parts": pa}, n), denote({"parts": pb}, n), n, stranded=stranded):
+        if not same(pa, pb):
             ctx.violation(mech + "-denotation", msg + ": feature %s denotes %r on one side and %r on the other (length %d)" % (key, pa, pb, n),
                           a=pa, b=pb)
+    # features sharing a uid (exact duplicates) or carrying none: matched as a multiset
+    rest = [v for k, v in fb.items() if k[0] != "uid"]
+    for k, v in fa.items():
+        if k[0] == "uid":
+            continue
+        hit = next((w for w in rest if (w[0], w[2]) == (v[0], v[2]) and same(v[3], w[3])), None)
+        if hit is None:
+            ctx.violation(mech + "-denotation", msg + ": the %s feature at %r has no counterpart denoting the same nucleotides on the other side (length %d)" % (v[0], v[3], n), a=v[3])
+        else:
+            rest.remove(hit)
 
 
 def execute(mat, ctx):
